@@ -108,9 +108,39 @@ def rich_ruleset(rng, path):
         dict(ngram=2, alphabet=['a', 'b'], ip={'a': 1, 'b': 2}, cp={'aa': 0, 'ab': 1, 'ba': 0, 'bb': 1}, ep={'a': 0, 'b': 0}, ln=[10, 0, 0, 1]),
         dict(ngram=3, alphabet=['a', 'b'], ip={'ab': 2, 'ba': 1, 'aa': 3}, cp={'aba': 0, 'bab': 0, 'baa': 1, 'aab': 0, 'aaa': 1, 'abb': 2},
              ep={'ab': 0}, ln=[10, 10, 0, 1, 0])])
+    if with_m and rng.random() < 0.5:
+        # a random OMEN model (sparse transitions, dead-end prefixes, gaps between levels) and many levels, each with its own
+        # probability: the levels are then expanded one after the other through the grammar's SHARED look-up cache
+        from . import omen as _omen
+        m = _omen.random_model(rng)
+        letters = 'abcd'
+        txt = lambda key: ''.join(letters[c - 1] for c in key)
+        omen_model = dict(ngram=m['n'], alphabet=list(letters), ln=m['ln'], ip={txt(k): lv for k, lv in m['ip']},
+                          cp={txt(k): lv for k, lv in m['cp']}, ep={txt(k): 0 for k, lv in m['ip']})
+        lvls = list(range(0, 8))
+        omen_prob = [(lv, round(0.3 / (i + 1) ** 2, 6)) for i, lv in enumerate(lvls)]
     rulesets.write_ruleset(path, terminals, base, prince=[(n, 0.5 / (i + 1)) for i, n in enumerate(names)],
                            omen_prob=omen_prob, omen_keyspace=[(l, 1) for l, _ in omen_prob], omen=omen_model)
     return {'terminals': terminals, 'base': base, 'omen_prob': omen_prob}
+
+
+def dense_omen_ruleset(rng, path):
+    """a Markov structure over a DENSE OMEN model (every n-gram present, levels 0..3, lengths up to 7): many levels, each its
+    own pre-terminal, expanded one after the other through the grammar's shared look-up cache - the situation in which a
+    cached partial parse of one level is looked up again by the next one"""
+    n = rng.choice([2, 3, 3])
+    letters = 'abc'
+    ip = {''.join(k): rng.choice([0, 0, 1, 2]) for k in itertools.product(letters, repeat=n - 1)}
+    cp = {''.join(k): rng.choice([0, 1, 1, 2, 3]) for k in itertools.product(letters, repeat=n)}
+    maxlen = rng.choice([5, 6, 7])
+    ln = [10] * (n - 1) + [rng.choice([0, 0, 1, 2]) for _ in range(maxlen - (n - 1))]
+    omen_model = dict(ngram=n, alphabet=list(letters), ip=ip, cp=cp, ep={k: 0 for k in ip}, ln=ln)
+    omen_prob = [(lv, round(0.3 / (i + 1) ** 2, 6)) for i, lv in enumerate(range(0, 6))]
+    terminals = {'D1': [('1', 0.5), ('2', 0.25)]}
+    base = [('M', 0.5), ('D1', 0.3)]
+    rulesets.write_ruleset(path, terminals, base, prince=[('D1', 0.5)], omen_prob=omen_prob,
+                           omen_keyspace=[(l, 1) for l, _ in omen_prob], omen=omen_model)
+    return {'terminals': terminals, 'base': base, 'omen_prob': omen_prob, 'omen': 'dense n=%d maxlen=%d' % (n, maxlen)}
 
 
 def tie_group_ruleset(rng, path):
@@ -161,6 +191,21 @@ def dyadic_prince_ruleset(rng, path):
     prince = [('A4', 0.5), ('A2', 0.25), ('D2', 0.25)]
     rulesets.write_ruleset(path, terminals, base, prince=prince)
     return {'terminals': terminals, 'base': base, 'prince': prince, 'kind': 'dyadic prince'}
+
+
+def long_alpha_ruleset(rng, path):
+    """alpha words of ten and more letters next to one-letter words: A10 is mangled by the masks of C10, not by those of C1"""
+    w10 = rng.sample(['basketball', 'strawberry', 'chocolates', 'university', 'volleyball'], 3)
+    w12 = rng.sample(['abracadabras', 'hippopotamus', 'countryside1'[:11] + 'x'], 2)
+    up = lambda n: [('L' * n, 0.5), ('U' + 'L' * (n - 1), 0.25), ('U' * n, 0.125), ('L' * (n - 1) + 'U', 0.125)]
+    terminals = {'A1': [('a', 0.5), ('b', 0.25), ('x', 0.25)], 'C1': [('L', 0.75), ('U', 0.25)],
+                 'A10': [(w10[0], 0.5), (w10[1], 0.25), (w10[2], 0.25)], 'C10': up(10),
+                 'A12': [(w12[0], 0.6), (w12[1], 0.4)], 'C12': up(12)[:rng.randint(2, 4)],
+                 'D1': [('1', 0.6), ('7', 0.4)]}
+    base = [('A10D1', 0.4), ('A1D1', 0.3), ('A12', 0.2), ('A1A10', 0.1)]
+    prince = [('A10', 0.4), ('A1', 0.3), ('A12', 0.2), ('D1', 0.1)]
+    rulesets.write_ruleset(path, terminals, base, prince=prince)
+    return {'terminals': terminals, 'base': base, 'prince': prince, 'kind': 'two-digit alpha lengths'}
 
 
 # --------------------------------------------------------------------------
